@@ -748,8 +748,10 @@ impl Driver {
                 break;
             }
         }
-        if accepted_other.is_none() && cur.0 > 0 {
-            self.op(&Op::Mint { who: who.into(), funds: vec![(cur.1.clone(), cur.0)] });
+        if accepted_other.is_none() {
+            // a quote of zero is paid by attaching nothing
+            let funds = if cur.0 > 0 { vec![(cur.1.clone(), cur.0)] } else { vec![] };
+            self.op(&Op::Mint { who: who.into(), funds });
         }
     }
 
@@ -1050,6 +1052,25 @@ pub fn run_create(c: &CreateCase) -> CaseResult {
         if ok && *price < ledger.min {
             r.violations.push((KEY_GOV_FLOOR.into(), format!("{}: create_minter at {} {} accepted while governance last set the minimum to {} {} (the factory reports {} {})", vname, price, denom, ledger.min, ledger.denom, min_now, min_denom_now), i + 1));
         }
+        if ok {
+            // the price the new minter really sells at (its own Config), against the denom governance decided
+            let created_denom = res
+                .as_ref()
+                .ok()
+                .and_then(|resp| {
+                    resp.events.iter().filter(|e| e.ty == "instantiate").filter_map(|e| e.attributes.iter().find(|a| a.key == "_contract_address").map(|a| a.value.clone())).find_map(|addr| {
+                        w.app.wrap().query_wasm_smart::<Value>(addr, &json!({"config": {}})).ok().filter(|c| c.get("sg721_address").is_some()).map(|c| denom_of(&c["mint_price"]))
+                    })
+                })
+                .unwrap_or_else(|| denom.to_string());
+            if created_denom != ledger.denom {
+                r.violations.push((
+                    "C07:created-in-foreign-denom".into(),
+                    format!("{}: create_minter at {} {} accepted: the new minter sells in {} while the governance minimum is {} {}", vname, price, denom, created_denom, ledger.min, ledger.denom),
+                    i + 1,
+                ));
+            }
+        }
         if ok && denom != min_denom_now {
             r.violations.push(("C07:creation-wrong-denom".into(), format!("{}: create_minter at {} {} accepted while the factory minimum is in {}", vname, price, denom, min_denom_now), i + 1));
         }
@@ -1287,6 +1308,43 @@ fn corpus() -> Vec<Case> {
             ];
             v.push(Case::Sale(mi));
         }
+        // (J) factories whose minimum is 0 or 1, in either denom: every later price operation keeps
+        // the minter's own denom, the floor is the (tiny) minimum, a free mint attaches nothing
+        for ibc in [false, true] {
+            for m in [0u128, 1] {
+                let mut j = base_case(variant);
+                j.ibc = ibc;
+                j.min_price = m;
+                j.price = m + 2;
+                let mut st = vec![];
+                if m > 0 {
+                    st.push(ump(m - 1));
+                }
+                st.extend(vec![
+                    ump(m),
+                    ump(20),
+                    set_wl(variant, 100, 300, m, !ibc),      // the other denom: refused
+                    set_wl(variant, 100, 300, m.max(1), ibc),
+                    at(150 * S),
+                    probe(BUYERS[0]),
+                    at(start),
+                    probe(BUYERS[1]),
+                    udp(m),
+                    probe(BUYERS[1]),
+                    ump(m + 1),
+                    probe(BUYERS[2]),
+                    at(start + H1),
+                    rdp(),
+                    ump(m),
+                    probe(BUYERS[2]),
+                ]);
+                if m > 0 {
+                    st.push(ump(m - 1));
+                }
+                j.steps = st;
+                v.push(Case::Sale(j));
+            }
+        }
         // (D) whitelist price while the attached whitelist is active; replacing it
         let mut dcase = base_case(variant);
         dcase.wl = true;
@@ -1356,6 +1414,32 @@ fn corpus() -> Vec<Case> {
             ];
             v.push(Case::Sale(f));
         }
+        // the governance minimum as a full dimension: amount 0 / 1 in the native and the IBC denom
+        // (at instantiation and after a proposal), requests in the minimum's denom and in the other
+        // one at 0 / min-1 / min / min+1
+        for ibc in [false, true] {
+            for m in [0u128, 1] {
+                let mut probes: Vec<(u128, bool)> = vec![];
+                for other in [false, true] {
+                    for a in [0u128, m.saturating_sub(1), m, m + 1, 100] {
+                        if !probes.contains(&(a, ibc != other)) {
+                            probes.push((a, ibc != other));
+                        }
+                    }
+                }
+                v.push(Case::Create(CreateCase { variant, ibc, min_price: m, world_price: m, sudo_min: None, sudo_fee: None, probes }));
+            }
+            // a proposal moves the minimum to 0 ustars (the only denom a proposal may name)
+            v.push(Case::Create(CreateCase {
+                variant,
+                ibc,
+                min_price: 50,
+                world_price: 50,
+                sudo_min: Some(0),
+                sudo_fee: if ibc { Some(6_000) } else { None },
+                probes: vec![(0, false), (1, false), (0, true), (1, true), (50, true), (50, false)],
+            }));
+        }
         // creation at the boundary, through the world constructor and through extra messages
         for (ibc, wp) in [(false, 49u128), (false, 50), (true, 49), (true, 51)] {
             v.push(Case::Create(CreateCase {
@@ -1391,7 +1475,7 @@ fn corpus() -> Vec<Case> {
 }
 
 fn gen_sale(rng: &mut Rng, variant: usize) -> SaleCase {
-    let min_price = *rng.pick(&[1u128, 50, 50, 77]);
+    let min_price = *rng.pick(&[0u128, 1, 50, 50, 50, 77]);
     let price = min_price + *rng.pick(&[0u128, 1, 30, 50]);
     let wl = rng.chance(1, 5);
     SaleCase {
@@ -1694,9 +1778,8 @@ impl OeDriver {
                 return;
             }
         }
-        if cur.0 > 0 {
-            self.op(&OeOp::Mint { who: who.into(), funds: vec![(cur.1.clone(), cur.0)] });
-        }
+        let funds = if cur.0 > 0 { vec![(cur.1.clone(), cur.0)] } else { vec![] };
+        self.op(&OeOp::Mint { who: who.into(), funds });
     }
 
     pub fn step(&mut self, st: &OStep) {
@@ -2021,6 +2104,30 @@ fn oe_corpus() -> Vec<Case> {
                 ],
             }));
         }
+        // (I) factories whose minimum is 0 or 1, in either denom
+        for ibc in [false, true] {
+            for m in [0u128, 1] {
+                let mut st = vec![];
+                if m > 0 {
+                    st.push(oump(m - 1));
+                }
+                st.extend(vec![
+                    oump(m),
+                    oump(20),
+                    oset_wl(3),                                                        // the other denom: refused
+                    oset_wl(1),                                                        // price m in the factory's denom
+                    oat(350 * S),
+                    oprobe(BUYERS[0]),
+                    oat(start),
+                    oprobe(BUYERS[1]),
+                    oump(m + 1),
+                    oprobe(BUYERS[2]),
+                    oump(m),
+                    oprobe(BUYERS[2]),
+                ]);
+                v.push(Case::OeSale(OeSaleCase { cfg: oe_cfg(variant, ibc, m, m + 2, true), steps: st }));
+            }
+        }
         // (C) attaching whitelists: price below / at the minimum, other denom, raised minimum; whitelist price while active
         v.push(Case::OeSale(OeSaleCase {
             cfg: oe_cfg(variant, false, 50, 100, true),
@@ -2059,6 +2166,32 @@ fn oe_corpus() -> Vec<Case> {
             cfg: oe_cfg(variant, false, 1, 10, true),
             steps: vec![osudo_min(0), oump(0), oat(start), oprobe(BUYERS[0]), oump(5)],
         }));
+        // the governance minimum as a full dimension (see the vending corpus)
+        for ibc in [false, true] {
+            for m in [0u128, 1] {
+                let mut probes: Vec<(u128, bool, bool)> = vec![];
+                for other in [false, true] {
+                    for a in [0u128, m.saturating_sub(1), m, m + 1, 100] {
+                        if !probes.iter().any(|p| p.0 == a && p.1 == (ibc != other)) {
+                            probes.push((a, ibc != other, true));
+                        }
+                    }
+                    probes.push((0, ibc != other, false));       // free and uncapped: refused whatever the minimum
+                    probes.push((1, ibc != other, false));
+                }
+                v.push(Case::OeCreate(OeCreateCase { variant, ibc, min_price: m, world_price: m.max(1), world_capped: true, sudo_min: None, sudo_fee: None, probes }));
+            }
+            v.push(Case::OeCreate(OeCreateCase {
+                variant,
+                ibc,
+                min_price: 50,
+                world_price: 50,
+                world_capped: true,
+                sudo_min: Some(0),
+                sudo_fee: if ibc { Some(6_000) } else { None },
+                probes: vec![(0, false, true), (1, false, true), (0, true, true), (1, true, true), (50, true, true), (50, false, false)],
+            }));
+        }
         // creation probes
         for (ibc, wp) in [(false, 49u128), (false, 50), (true, 49), (true, 51)] {
             v.push(Case::OeCreate(OeCreateCase {
@@ -2107,9 +2240,13 @@ fn oe_corpus() -> Vec<Case> {
 }
 
 fn gen_oe_sale(rng: &mut Rng, variant: usize) -> OeSaleCase {
-    let min = *rng.pick(&[1u128, 50, 50, 77]);
-    let price = min + *rng.pick(&[0u128, 1, 30, 50]);
-    OeSaleCase { cfg: oe_cfg(variant, rng.chance(1, 4), min, price, rng.chance(3, 4)), steps: vec![] }
+    let min = *rng.pick(&[0u128, 1, 50, 50, 50, 77]);
+    let capped = rng.chance(3, 4);
+    let mut price = min + *rng.pick(&[0u128, 1, 30, 50]);
+    if !capped {
+        price = price.max(1); // a free edition needs a cap
+    }
+    OeSaleCase { cfg: oe_cfg(variant, rng.chance(1, 4), min, price, capped), steps: vec![] }
 }
 
 pub fn run_oe_create(c: &OeCreateCase) -> CaseResult {
@@ -2186,6 +2323,25 @@ pub fn run_oe_create(c: &OeCreateCase) -> CaseResult {
         if ok && *price < ledger.min {
             r.violations.push((KEY_GOV_FLOOR.into(), format!("{}: create_minter at {} {} accepted while governance last set the minimum to {} {} (the factory reports {} {})", vname, price, denom, ledger.min, ledger.denom, min_now, min_denom_now), i + 1));
         }
+        if ok {
+            // the price the new minter really sells at (its own Config), against the denom governance decided
+            let created_denom = res
+                .as_ref()
+                .ok()
+                .and_then(|resp| {
+                    resp.events.iter().filter(|e| e.ty == "instantiate").filter_map(|e| e.attributes.iter().find(|a| a.key == "_contract_address").map(|a| a.value.clone())).find_map(|addr| {
+                        w.app.wrap().query_wasm_smart::<Value>(addr, &json!({"config": {}})).ok().filter(|c| c.get("sg721_address").is_some()).map(|c| denom_of(&c["mint_price"]))
+                    })
+                })
+                .unwrap_or_else(|| denom.to_string());
+            if created_denom != ledger.denom {
+                r.violations.push((
+                    "C07:created-in-foreign-denom".into(),
+                    format!("{}: create_minter at {} {} accepted: the new minter sells in {} while the governance minimum is {} {}", vname, price, denom, created_denom, ledger.min, ledger.denom),
+                    i + 1,
+                ));
+            }
+        }
         if ok && denom != min_denom_now {
             r.violations.push(("C07:creation-wrong-denom".into(), format!("{}: create_minter at {} {} accepted while the factory minimum is in {}", vname, price, denom, min_denom_now), i + 1));
         }
@@ -2243,7 +2399,7 @@ pub fn run(a: &Args) {
         vec![(rf.case, 0)]
     } else {
         let mut v: Vec<(Case, usize)> = corpus().into_iter().map(|c| (c, 0)).collect();
-        let per_variant = if a.thorough() { 80 } else { 10 };
+        let per_variant = if a.thorough() { 80 } else { 8 };
         for variant in 0..6 {
             for _ in 0..per_variant {
                 let len = rng.range(35, 60) as usize;
@@ -2252,7 +2408,7 @@ pub fn run(a: &Args) {
         }
         // part 2: open edition
         v.extend(oe_corpus().into_iter().map(|c| (c, 0)));
-        let per_oe = if a.thorough() { 80 } else { 8 };
+        let per_oe = if a.thorough() { 80 } else { 6 };
         for variant in 0..3 {
             for _ in 0..per_oe {
                 let len = rng.range(30, 50) as usize;
